@@ -677,7 +677,7 @@ Proof.
         -- injection Hy as -> ->. nia.
 Qed.
 
-(* ---------------------------------------------------------------- non-vacuity and the de-duplication defect *)
+(* ---------------------------------------------------------------- non-vacuity *)
 
 Definition ex_grid : grid := mkGrid 0 0 23043 23047 256 256 [80; 40; 20; 10] false 115 100 4 1.
 Definition ex_m : mgrid := mkMG ex_grid 2 2 10.
@@ -704,26 +704,7 @@ Example ex_cut : ~ no_buffer_cut ex_m 8 8 3 /\
   meta_size (mkMG ex_grid 4 4 10) 0 = (2, 2).
 Proof. unfold no_buffer_cut. vm_compute. repeat split; try reflexivity. intros H. discriminate H. Qed.
 
-(* create_tiles de-duplicates meta tiles by bbox.  On a level that is two meta tiles wide with a buffer of at least
-   one meta tile, both buffered bboxes are cut down to the grid bbox: the second meta tile is dropped and the
-   requested tile (1,0,0) is never produced (finding meta-dedup-by-bbox-drops-tile). *)
-Definition dd_m : mgrid := mkMG (mkGrid 0 0 160 80 8 8 [10] false 115 100 4 1) 1 1 8.
-
-Lemma every_requested_tile_is_produced_refuted :
-  exists m tiles plan, mwf m /\ create_plan m true false false tiles = Some plan /\
-    exists c, In c tiles /\ ~ In c (flat_map snd plan) /\
-              fst (fst c) < fst (grid_size (mg_grid m) (snd c)) /\ 0 <= fst (fst c).
-Proof.
-  exists dd_m, [(0, 0, 0); (1, 0, 0)], [([((0, 0, 160, 80), (16, 8))], [(0, 0, 0)])].
-  split.
-  - unfold mwf, wf, pos_res. cbn. repeat split; try lia. all: intros r Hr; intuition lia.
-  - split; [vm_compute; reflexivity|]. exists (1, 0, 0). split; [right; left; reflexivity|].
-    split; [|vm_compute; split; [reflexivity|discriminate]].
-    cbn. intros [H|[]]. discriminate H.
-Qed.
-
-(* distinct main tiles have distinct requested bboxes as long as the buffer is smaller than the meta tile:
-   here the weaker statement that is needed for the de-duplication to be sound within one meta tile *)
+(* tiles with the same main tile have the same meta tile (used by the de-duplication of create_tiles) *)
 Lemma same_main_tile_same_meta_tile m x y x' y' z :
   main_tile m x' y' z = main_tile m x y z -> meta_tile m x' y' z = meta_tile m x y z.
 Proof. intros H. unfold meta_tile. rewrite H. reflexivity. Qed.
@@ -958,3 +939,83 @@ Example background_example :
   mt_size (meta_tile bg_m 2 0 0) = (6, 9) /\
   tile_pixel_src (2, 1) (8, 8) (6, 9) 3 0 = Some (5, 1) /\ tile_pixel_src (2, 1) (8, 8) (6, 9) 4 0 = None.
 Proof. vm_compute. repeat split; reflexivity. Qed.
+
+(* ---------------------------------------------------------------- every requested tile is produced *)
+
+Definition valid_tile (m : mgrid) (c : coord) : Prop :=
+  let '(x, y, z) := c in
+  0 <= x < fst (grid_size (mg_grid m) z) /\ 0 <= y < snd (grid_size (mg_grid m) z).
+
+Lemma coord_mem_In c l : coord_mem c l = true <-> In c l.
+Proof.
+  induction l as [|a l IH]; cbn [coord_mem In]; [split; [discriminate|tauto]|].
+  rewrite orb_true_iff, IH, coord_eqb_eq. split; intros [H|H]; auto.
+Qed.
+
+(* the loop over the requested tiles: a valid tile whose main tile was not seen before is stored by one of
+   the meta tiles that the loop collects *)
+Lemma dedup_meta_covers m tiles : forall seen c,
+  mwf m -> In c tiles -> valid_tile m c ->
+  (let '(x, y, z) := c in ~ In (main_tile m x y z) seen) ->
+  In c (flat_map mt_tiles (dedup_meta m tiles seen)).
+Proof.
+  induction tiles as [|[[tx ty] tz] tiles IH]; intros seen [[cx cy] cz] Hm Hin Hv Hns; [destruct Hin|].
+  cbn [dedup_meta]. destruct (coord_mem (main_tile m tx ty tz) seen) eqn:E.
+  - apply coord_mem_In in E. destruct Hin as [Hin|Hin].
+    + injection Hin as -> -> ->. contradiction.
+    + apply (IH seen (cx, cy, cz)); assumption.
+  - cbn [flat_map]. apply in_or_app.
+    destruct (coord_eqb (main_tile m cx cy cz) (main_tile m tx ty tz)) eqn:E2.
+    + left. apply coord_eqb_eq in E2.
+      assert (cz = tz) by (rewrite !main_tile_eq in E2; injection E2 as _ _ ->; reflexivity). subst tz.
+      rewrite <- (same_main_tile_same_meta_tile m tx ty cx cy cz E2).
+      apply own_tile_in_meta; [exact Hm|apply Hv|apply Hv].
+    + right. destruct Hin as [Hin|Hin].
+      * injection Hin as -> -> ->.
+        assert (coord_eqb (main_tile m cx cy cz) (main_tile m cx cy cz) = true) by (apply coord_eqb_eq; reflexivity).
+        congruence.
+      * apply (IH (main_tile m tx ty tz :: seen) (cx, cy, cz)); try assumption.
+        intros [H|H]; [|exact (Hns H)].
+        assert (coord_eqb (main_tile m cx cy cz) (main_tile m tx ty tz) = true) by (apply coord_eqb_eq; symmetry; exact H).
+        congruence.
+Qed.
+
+Lemma flat_map_snd_map {A} (f : A -> step) (l : list A) :
+  flat_map snd (map f l) = flat_map (fun a => snd (f a)) l.
+Proof. apply flat_map_map. Qed.
+
+(* every_requested_tile_is_produced: whatever the strategy (single tiles, request-minimising meta tile, one meta
+   tile per main tile, bulk), every requested valid tile is handed to a store call of the creation plan *)
+Lemma every_requested_tile_is_produced_lemma m has_meta minimize bulk (tiles : list coord) z plan :
+  mwf m -> (forall c, In c tiles -> valid_tile m c /\ snd c = z) ->
+  create_plan m has_meta minimize bulk tiles = Some plan ->
+  forall c, In c tiles -> In c (flat_map snd plan).
+Proof.
+  intros Hm Hall Hplan c Hc. unfold create_plan in Hplan.
+  destruct (negb has_meta).
+  - injection Hplan as <-. rewrite flat_map_snd_map. cbn [snd]. apply in_flat_map. exists c. split; [exact Hc|left; reflexivity].
+  - destruct (minimize && (1 <? Z.of_nat (length tiles))) eqn:Emin.
+    + assert (Hne : tiles <> []) by (intros ->; cbn in Emin; rewrite andb_false_r in Emin; discriminate).
+      destruct (minimal_meta_contains_lemma m tiles z Hm Hne) as (mt & Hmt & Hcov).
+      { intros x y l Hin. destruct (Hall (x, y, l) Hin) as (Hv & Hz). cbn in Hz, Hv. lia. }
+      rewrite Hmt in Hplan. injection Hplan as <-. cbn [flat_map snd]. rewrite app_nil_r. apply Hcov. exact Hc.
+    + injection Hplan as <-. rewrite flat_map_snd_map.
+      assert (Hcov : In c (flat_map mt_tiles (dedup_meta m tiles []))).
+      { apply dedup_meta_covers; [exact Hm|exact Hc|apply (Hall c Hc)|]. destruct c as [[cx cy] cz]. intros []. }
+      apply in_flat_map in Hcov. destruct Hcov as (mt & Hmt & Hin). apply in_flat_map. exists mt. split; [exact Hmt|].
+      destruct bulk; exact Hin.
+Qed.
+
+(* non-vacuity, and the regression witness of finding meta-dedup-by-bbox-drops-tile: on a level that is two meta
+   tiles wide with a buffer of one meta tile both requested bboxes are the grid bbox; both tiles are produced *)
+Definition dd_m : mgrid := mkMG (mkGrid 0 0 160 80 8 8 [10] false 115 100 4 1) 1 1 8.
+Example every_requested_tile_is_produced_example :
+  mwf dd_m /\ (forall c, In c [(0, 0, 0); (1, 0, 0)] -> valid_tile dd_m c /\ snd c = 0) /\
+  create_plan dd_m true false false [(0, 0, 0); (1, 0, 0)] =
+    Some [([((0, 0, 160, 80), (16, 8))], [(0, 0, 0)]); ([((0, 0, 160, 80), (16, 8))], [(1, 0, 0)])].
+Proof.
+  split; [|split].
+  - unfold mwf, wf, pos_res. cbn. repeat split; try lia. all: intros r Hr; intuition lia.
+  - intros c [<-|[<-|[]]]; vm_compute; repeat split; discriminate.
+  - vm_compute. reflexivity.
+Qed.
